@@ -166,6 +166,47 @@ for _s, _f in [('add', operator.add), ('sub', operator.sub), ('mul', operator.mu
     _mk_bin(_s, _f)
 
 
+def _mk_ibin(sym, ifn):
+    def gen(rng, D, P, tier):
+        s1 = _shape(rng, tier)
+        s2 = s1 if rng.random() < 0.5 else tuple(rng.choice([1, n]) for n in s1)[rng.randint(0, len(s1)):]
+        x = rand_coeffs(rng, (D, P) + s1, -2, 2)
+        y = rand_coeffs(rng, (D, P) + s2, -2, 2)
+        if sym == 'div':
+            y[0] = c01.gen_x0(rng, 'nz', y[0].shape, False)
+        return [U(x), U(y)]
+
+    def call(a):
+        z = a[0].clone()
+        z = ifn(z, a[1])
+        return z
+    op('ibin:%s:uu' % sym, gen, call, lambda z: getattr(operator, {'add': 'add', 'sub': 'sub', 'mul': 'mul', 'div': 'truediv'}[sym])(z[0], z[1]), tags=('arith',))
+
+
+for _s, _f in [('add', operator.iadd), ('sub', operator.isub), ('mul', operator.imul), ('div', operator.itruediv)]:
+    _mk_ibin(_s, _f)
+
+
+def _gen_floordiv(rng, D, P, tier):
+    # x // y with L'Hospital handling: the leading coefficient(s) of y (and x) vanish in some directions
+    x = rand_coeffs(rng, (D, P), -2, 2)
+    y = rand_coeffs(rng, (D, P), -2, 2)
+    y[0] = [dyadic(rng, 0.5, 2.0) for _ in range(P)]
+    ks = [rng.choice([0, 0, 1, 2]) for _ in range(P)]
+    if D >= 2 and not any(0 < k < D for k in ks):
+        ks[rng.randrange(P)] = 1          # at least one direction takes the L'Hospital branch
+    for p in range(P):
+        k = ks[p]
+        if k and k < D:
+            x[:k, p] = 0.0
+            y[:k, p] = 0.0
+            y[k, p] = dyadic(rng, 0.5, 2.0)
+    return [U(x), U(y)]
+
+
+op('floordiv:uu', _gen_floordiv, lambda a: a[0] // a[1], None, tags=('arith', 'no-trunc'))
+
+
 def _gen_powuu(rng, D, P, tier):
     s = _shape(rng, tier)
     x = rand_coeffs(rng, (D, P) + s, -1, 1)
